@@ -185,6 +185,8 @@ type Worker struct {
 	RegionsMerged int
 	syncMaps     map[string]*Object
 	opaqueStr    map[int]Value
+	smtReads     map[string][]*Term
+	domSlotCache map[*ssa.BasicBlock][]int
 	lazyNext     bool
 	LazyBranches int
 	pcH          [][2]uint64
@@ -571,6 +573,9 @@ func (w *Worker) externGlobalValue(g *ssa.Global, et types.Type) Value {
 		e := &ErrV{ID: w.newID(), Msg: strV(w.ctx, name), Name: name}
 		return IfaceV{T: errType, V: e}
 	}
+	if st, ok := under(et).(*types.Struct); ok && st.NumFields() == 0 {
+		return w.zero(et)
+	}
 	w.unsupported("read of external global %s", name)
 	return nil
 }
@@ -595,10 +600,14 @@ func (w *Worker) getPath(v Value, path []PE) Value {
 			if len(path[i+1:]) != 0 {
 				w.unsupported("internal: path below SMT buffer")
 			}
+			var idx *Term
 			if e.Sym != nil {
-				return w.ctx.Select(x.A, e.Sym)
+				idx = e.Sym
+			} else {
+				idx = w.ctx.BVConst(uint64(e.I), 64)
 			}
-			return w.ctx.Select(x.A, w.ctx.BVConst(uint64(e.I), 64))
+			w.recordRead(x.A, idx)
+			return w.laSelect(x.A, idx)
 		default:
 			w.unsupported("internal: getPath through %T", v)
 		}
@@ -671,7 +680,7 @@ func (w *Worker) setPath(v Value, path []PE, nv Value) Value {
 		} else {
 			idx = w.ctx.BVConst(uint64(e.I), 64)
 		}
-		return &SMTBuf{A: w.ctx.Store(x.A, idx, nv.(*Term)), N: x.N}
+		return &SMTBuf{A: w.laStoreAt(x.A, idx, nv.(*Term)), N: x.N, Name: x.Name}
 	}
 	w.unsupported("internal: setPath through %T", v)
 	return nil
@@ -847,7 +856,13 @@ func (w *Worker) mergeValue(c *Term, a, b Value) (Value, bool) {
 		}
 	case *SMTBuf:
 		if y, ok := b.(*SMTBuf); ok {
-			return &SMTBuf{A: w.ctx.Ite(c, x.A, y.A), N: x.N}, x.N == y.N
+			if x == y {
+				return x, true
+			}
+			if x.A == y.A {
+				return &SMTBuf{A: x.A, N: w.ctx.Ite(c, x.N, y.N), Name: x.Name}, true
+			}
+			return &SMTBuf{A: &LArr{kind: laIte, cond: c, a: x.A, b: y.A}, N: w.ctx.Ite(c, x.N, y.N), Name: x.Name}, true
 		}
 	}
 	return nil, false
@@ -896,12 +911,6 @@ func samePtr(a, b PtrV) bool {
 		}
 	}
 	return true
-}
-
-// SMTBuf: byte buffer held as an SMT array (index BV64, elem BV8) of N bytes.
-type SMTBuf struct {
-	A *Term
-	N *Term // capacity in bytes (BV64), may be symbolic
 }
 
 // ---- calling ----
